@@ -60,12 +60,14 @@ func responseChecks(tools *pipeline.Tools, v *pipeline.Variant) string {
 		return fmt.Sprintf("response holds %d files, want exactly 1", n)
 	}
 	// expected name: protoc-gen-gogo's name for the same request with the suffix replaced
-	var pbName string
-	for n := range v.PB {
-		pbName = n
-	}
 	base := strings.TrimSuffix(path.Base(v.File.Name), ".proto")
-	if v.PB != nil {
+	var pbName string
+	for n := range v.PB { // the struct file of the file to generate (an imported file of the package has one too)
+		if path.Base(n) == base+".pb.go" {
+			pbName = n
+		}
+	}
+	if v.PB != nil && pbName != "" {
 		want := strings.TrimSuffix(pbName, ".pb.go") + "_terraform.go"
 		if v.TFName != want {
 			return fmt.Sprintf("file is named %q, want %q", v.TFName, want)
